@@ -178,7 +178,7 @@ func Solve(o *Obligation, cfg *SolverCfg, idx int) {
 			os.WriteFile(f0, []byte(v.text), 0o644)
 			stageMS := cfg.StageMS
 			if stageMS == 0 {
-				stageMS = 6000
+				stageMS = 12000
 			}
 			r := runSolver(context.Background(), "z3-new", f0, stageMS, cfg.Seed)
 			if !cfg.Keep {
